@@ -4,7 +4,7 @@
 EXTENDS CDS, Lift, Json, IOUtils, TLC
 Trace == ndJsonDeserialize(IOEnv.TRACE_FILE)
 Ok(b, name) == IF b THEN "ok" ELSE name
-Soft == {"ok", "chunk-codons:single-exon-offset"}
+Soft == {"ok", "chunk-codons:single-exon-offset", "aggregate-identifier:from-chunk-location"}
 FirstBad(seq) == IF \E i \in DOMAIN seq : seq[i] \notin Soft
                  THEN seq[CHOOSE i \in DOMAIN seq : seq[i] \notin Soft /\ \A j \in 1..(i - 1) : seq[j] \in Soft]
                  ELSE IF \E i \in DOMAIN seq : seq[i] # "ok" THEN seq[CHOOSE i \in DOMAIN seq : seq[i] # "ok"] ELSE "ok"
@@ -61,7 +61,27 @@ VTwin(ev) ==
       ELSE IF unreduced THEN "chunk-codons:single-exon-offset" ELSE "chunk-cds-sequence"
     >>)
   >>)
-Verdict(ev) == CASE ev[1] = "twin" -> VTwin(ev) [] OTHER -> "unknown-op"
+(* ["agg", kind, route, ctor, ws, we, exons (of the longest child), R,
+    sameDict, sameGuid, <<start, end>>, chunkLocBack, referenceSequence, sameDictButOwnGuid] : a gene / feature collection / annotation
+   collection built on the chunk against its whole-chromosome twin.  Its span is that of the longest child. *)
+VAgg(ev) ==
+  LET ws == ev[5] we == ev[6] ex == ev[7] R == ev[8] lo == MinStart(ex) hi == MaxEnd(ex)
+      ilo == IF ws > lo THEN ws ELSE lo ihi == IF we < hi THEN we ELSE hi IN
+  IF ~IsVal(ev[4]) THEN "chunk:constructs"
+  ELSE FirstBad(<<
+    \* the aggregate classes digest their CHUNK-RELATIVE location into their own identifier (keyed known finding): the
+    \* soft clause applies only when the chunk really moves or cuts that location and nothing else differs
+    IF ev[9] = TRUE THEN "ok"
+    ELSE IF ev[14] = TRUE /\ (ws > 0 \/ we < hi) THEN "aggregate-identifier:from-chunk-location" ELSE "same-dictionary-form",
+    IF ev[10] = TRUE THEN "ok"
+    ELSE IF ev[14] = TRUE /\ (ws > 0 \/ we < hi) THEN "aggregate-identifier:from-chunk-location" ELSE "same-identifier",
+    Ok(IsVal(ev[11]) /\ ev[11][2] = <<lo, hi>>, "same-chromosome-blocks"),
+    IF ilo >= ihi THEN Ok(IsVal(ev[12]) /\ IsEmptyLoc(ev[12][2]), "outside-chunk-is-empty")
+    ELSE Ok(IsVal(ev[12]) /\ ~IsEmptyLoc(ev[12][2]) /\ PosSet(ev[12][2]) = ilo..(ihi - 1), "chunk-location-lifts-back"),
+    IF ilo >= ihi THEN Ok(Rejected(ev[13]) \/ (IsVal(ev[13]) /\ ev[13][2] = <<>>), "outside-chunk-sequence")
+    ELSE Ok(IsVal(ev[13]) /\ ev[13][2] = SubSeq(R, ilo + 1, ihi), "chunk-sequence-is-substring") >>)
+
+Verdict(ev) == CASE ev[1] = "twin" -> VTwin(ev) [] ev[1] = "agg" -> VAgg(ev) [] OTHER -> "unknown-op"
 Bad == {i \in DOMAIN Trace : Verdict(Trace[i]) # "ok"}
 ASSUME \A i \in Bad : PrintT(<<"BAD", i, Verdict(Trace[i])>>)
 ASSUME PrintT(<<"DONE", Len(Trace), Cardinality(Bad)>>)
